@@ -12,6 +12,7 @@ import (
 	"encoding/json"
 	"fmt"
 	"math"
+	"net"
 	"os"
 	"os/exec"
 	"reflect"
@@ -358,7 +359,9 @@ func native(outPath string) {
 	universe := map[string]interface{}{"nil": nil, "true": true, "int": int64(42), "neg": int64(-7), "flt": 1.5, "whole": 3.0, "str": "héllo", "empty": "", "num": "12", "fnum": "1.5",
 		"list": []interface{}{int64(1), "a", 2.5, nil}, "elist": []interface{}{}, "map": map[interface{}]interface{}{"a": int64(1), int64(2): "b", "c": nil}, "emap": map[interface{}]interface{}{},
 		"tslice": []int64{1, 2}, "tmap": map[string]int64{"a": 1, "b": 2}, "bytes": []byte("ab"), "ptr": new(int64), "ch": make(chan int64, 2), "fn": func(int64) int64 { return 0 },
-		"struct": struct{ A int }{1}, "i32": int32(5), "u8": uint8(200), "f32": float32(2.5)}
+		"struct": struct{ A int }{1}, "i32": int32(5), "u8": uint8(200), "f32": float32(2.5),
+		// named types keep Go's default formatting (their String method where they have one): only a plain []byte is text
+		"ip": net.ParseIP("10.0.0.1"), "rawmsg": json.RawMessage("ab"), "dur": 1500 * time.Nanosecond, "hw": net.HardwareAddr{1, 2, 3, 4, 5, 6}, "namedstr": reflect.Kind(2)}
 	call := func(src string, v interface{}) (interface{}, error) {
 		e := newEnv()
 		e.Define("v", v)
